@@ -192,6 +192,26 @@ fn pick55(x: u128) -> u96 { let r = x % 4; if r == 0 { 0 } else if r == 1 { 7 } 
     ]
 }
 
+/// Programs of the repository's examples/ directory (read at run time): (file, function, argument lists).
+fn repo_examples() -> Vec<(&'static str, &'static str, Vec<Vec<u128>>)> {
+    vec![
+        ("fib", "fib", vec![vec![1, 1, 0], vec![1, 1, 10], vec![1, 2, 40]]),
+        ("fib_counter", "fib", vec![vec![1, 1, 0], vec![1, 1, 12]]),
+        ("fib_local", "fib", vec![vec![0], vec![1], vec![9]]),
+        ("fib_loop", "fib", vec![vec![1, 1, 0], vec![1, 1, 25]]),
+        ("fib_match", "fib", vec![vec![0], vec![1], vec![8]]),
+        ("fib_struct", "fib", vec![vec![1, 1, 7]]),
+        ("fib_u128", "fib", vec![vec![1, 1, 0], vec![1, 1, 50], vec![1, 1, 200]]),
+        ("fib_u128_checked", "fib", vec![vec![1, 1, 10], vec![1, 1, 200]]),
+        ("fib_unary", "fib", vec![vec![0], vec![6]]),
+        ("hash_chain", "hash_chain", vec![vec![0], vec![3]]),
+        ("hash_chain_gas", "hash_chain", vec![vec![0], vec![3], vec![15]]),
+        ("enum_flow", "main", vec![vec![]]),
+        ("pedersen_test", "test_pedersen", vec![vec![]]),
+        ("trim_unused_params", "overwritten_in_loop", vec![vec![0], vec![5]]),
+    ]
+}
+
 fn compile_cairo(name: &str, code: &str) -> Result<Program, String> {
     let mut dir = std::path::PathBuf::from(env!("CARGO_MANIFEST_DIR"));
     dir.pop();
@@ -220,11 +240,10 @@ fn price(b: BuiltinName) -> Option<usize> {
 }
 
 /// One run: returns (C04 defect, C17 defect).
-fn one_run(program: &Program, config: &MetadataComputationConfig, fname: &str, args: &[u128]) -> Result<(Option<String>, Option<String>, usize), String> {
+fn one_run(program: &Program, config: &MetadataComputationConfig, fname: &str, args: &[u128], available: usize) -> Result<(Option<String>, Option<String>, usize), String> {
     let runner = SierraCasmRunner::new(program.clone(), Some(config.clone()), Default::default(), None).map_err(|e| format!("runner: {e}"))?;
     let func = runner.find_function(fname).map_err(|e| format!("find: {e}"))?;
     let argv: Vec<Arg> = args.iter().map(|a| Arg::Value(Felt252::from(*a))).collect();
-    let available = 100_000_000usize;
     // C04
     let res = runner.run_function_with_starknet_context(func, argv.clone(), Some(available), Default::default()).map_err(|e| format!("run: {e}"))?;
     let mut c04 = None;
@@ -234,6 +253,8 @@ fn one_run(program: &Program, config: &MetadataComputationConfig, fname: &str, a
         for (name, uses) in b.builtin_instance_counter.iter() { if let Some(p) = price(*name) { trace += p * uses; } }
         let charged = available - left;
         if trace > charged + 100 { c04 = Some(format!("undercharged: trace cost {trace} ({} steps, builtins {:?}) > gas charged {charged} + 100", b.n_steps, b.builtin_instance_counter)); }
+        // "no program can execute more than (available gas / step price) steps"
+        else if 100 * b.n_steps > available + 100 { c04 = Some(format!("{} steps executed with only {available} gas available", b.n_steps)); }
     }
     // C17
     let builder = RunnableBuilder::new(program.clone(), Some(config.clone())).map_err(|e| format!("builder: {e}"))?;
@@ -289,9 +310,19 @@ fn __verif_n_trace_corpus() {
         ("linear solvers", MetadataComputationConfig::default()),
         ("equation solvers", MetadataComputationConfig { linear_gas_solver: false, linear_ap_change_solver: false, ..Default::default() }),
     ];
-    let progs = corpus();
+    let mut progs: Vec<(String, String, Vec<(&'static str, Vec<Vec<u128>>)>)> = corpus().into_iter().map(|(n, c, f)| (n.to_string(), c.to_string(), f)).collect();
+    {
+        let mut root = std::path::PathBuf::from(env!("CARGO_MANIFEST_DIR"));
+        root.pop();
+        root.pop();
+        for (file, fname, args) in repo_examples() {
+            if let Ok(code) = std::fs::read_to_string(root.join("examples").join(format!("{file}.cairo"))) { progs.push((format!("examples_{file}"), code, vec![(fname, args)])); }
+        }
+    }
+    let budgets: &[usize] = if thorough { &[100_000_000, 200_000, 30_000, 5_000] } else { &[100_000_000, 30_000] };
     let results: Vec<(u64, usize, Vec<(&'static str, String, String)>, Vec<String>)> = std::thread::scope(|sc| {
         let hs: Vec<_> = progs.iter().map(|(name, code, fns)| { let configs = &configs; sc.spawn(move || {
+            let name = name.as_str();
             let mut cases = 0u64;
             let mut instances = 0usize;
             let mut fails: Vec<(&'static str, String, String)> = vec![];
@@ -301,9 +332,10 @@ fn __verif_n_trace_corpus() {
                 for (fname, arglists) in fns {
                     for (ai, args) in arglists.iter().enumerate() {
                         if !thorough && ai >= 4 { continue; }
-                        let what = format!("{name}.cairo::{fname}({args:?}), {cname}");
+                        for &available in budgets {
+                        let what = format!("{name}.cairo::{fname}({args:?}), {cname}, {available} gas");
                         let full = format!("{name}::{fname}");
-                        let h = std::thread::Builder::new().stack_size(256 << 20).spawn({ let program = program.clone(); let config = config.clone(); let args = args.clone(); move || catch_unwind(AssertUnwindSafe(|| one_run(&program, &config, &full, &args))) }).unwrap();
+                        let h = std::thread::Builder::new().stack_size(256 << 20).spawn({ let program = program.clone(); let config = config.clone(); let args = args.clone(); move || catch_unwind(AssertUnwindSafe(|| one_run(&program, &config, &full, &args, available))) }).unwrap();
                         match h.join() {
                             Ok(Ok(Ok((c04, c17, n)))) => {
                                 cases += 1;
@@ -313,6 +345,7 @@ fn __verif_n_trace_corpus() {
                             }
                             Ok(Ok(Err(e))) => skipped.push(format!("{what}: {e}")),
                             _ => skipped.push(format!("{what}: harness or toolchain panicked: {}", LAST.lock().unwrap())),
+                        }
                         }
                     }
                 }
